@@ -444,8 +444,32 @@ fn pool() -> &'static Pool {
     })
 }
 
+/// Keeps the runtime's (single-threaded) blocking pool busy while alive, so that a file write
+/// that a store function leaves to tokio's background machinery is still queued when the store
+/// future completes: "returns before the data is written" becomes deterministic instead of a race.
+struct BusyPool(tokio::task::JoinHandle<()>);
+
+impl BusyPool {
+    fn start() -> Self {
+        BusyPool(tokio::spawn(async {
+            loop {
+                let a = tokio::task::spawn_blocking(|| std::thread::sleep(Duration::from_millis(5)));
+                let b = tokio::task::spawn_blocking(|| std::thread::sleep(Duration::from_millis(5)));
+                let _ = a.await;
+                let _ = b.await;
+            }
+        }))
+    }
+}
+
+impl Drop for BusyPool {
+    fn drop(&mut self) {
+        self.0.abort();
+    }
+}
+
 fn block_on<T>(f: impl std::future::Future<Output = T>) -> T {
-    let rt = tokio::runtime::Builder::new_current_thread().enable_all().build().expect("runtime");
+    let rt = tokio::runtime::Builder::new_current_thread().max_blocking_threads(1).enable_all().build().expect("runtime");
     let out = rt.block_on(f);
     rt.shutdown_timeout(Duration::from_millis(100));
     out
@@ -665,15 +689,19 @@ pub fn test_pem(case: &PemCase) -> R {
                     std::fs::write(&sf, &long).map_err(hio)?;
                     labels.push("pem:overwrite");
                 }
+                let _busy = BusyPool::start();
+                tokio::task::yield_now().await;
                 chain.store_pemfile(&cf).await.map_err(io)?;
+                // what is on disk at the moment the store future has completed, read independently
+                // and synchronously (nothing is awaited in between)
+                let at_return = std::fs::read(&cf).map_err(hio)?;
                 key.store_secret_pemfile(&kf).await.map_err(io)?;
-                // what is on disk once the store future has completed, read independently
+                let key_at_return = std::fs::read(&kf).map_err(hio)?;
                 let chain_on_disk = |bytes: &[u8]| -> Result<(), (String, String)> {
                     let secs = pem_decode_strict(bytes).map_err(|e| ("C19:pem-text-shape".to_string(), format!("stored chain file is not RFC 7468 text: {e}")))?;
                     ensure!(secs.len() == certs.len() && secs.iter().zip(&certs).all(|(s, c)| s.0 == "CERTIFICATE" && s.1 == c.der()), "C19:stored-chain-content", "stored chain file holds {} sections {:?} for a chain of {}", secs.len(), secs.iter().map(|s| s.0.clone()).collect::<Vec<_>>(), certs.len());
                     Ok(())
                 };
-                let at_return = std::fs::read(&cf).map_err(hio)?;
                 if let Err(first_view) = chain_on_disk(&at_return) {
                     // is the data merely late (written by a background operation after the future completed)?
                     let mut settled = Err(first_view);
@@ -687,7 +715,7 @@ pub fn test_pem(case: &PemCase) -> R {
                     settled?;
                     late = Some(("C19:store-returns-before-data-written".to_string(), format!("CertificateChain::store_pemfile({} certificates) returned Ok while the file held only {} of its final bytes ({} complete sections); the rest appeared later, so an immediate load sees a shorter chain or no certificate (the tokio file is dropped without flush)", certs.len(), at_return.len(), pem_decode_strict(&at_return).map(|s| s.len()).unwrap_or(0))));
                 }
-                let secs = pem_decode_strict(&std::fs::read(&kf).map_err(hio)?).map_err(|e| ("C19:pem-text-shape".to_string(), format!("stored key file is not RFC 7468 text: {e}")))?;
+                let secs = pem_decode_strict(&key_at_return).map_err(|e| ("C19:pem-text-shape".to_string(), format!("stored key file is not RFC 7468 text when store_secret_pemfile returns: {e}")))?;
                 ensure!(secs.len() == 1 && secs[0].0 == "PRIVATE KEY" && secs[0].1 == key.secret_der(), "C19:stored-key-content", "stored key file holds {} sections {:?}", secs.len(), secs.iter().map(|s| s.0.clone()).collect::<Vec<_>>());
                 if let Some(first) = certs.first() {
                     first.store_pemfile(&sf).await.map_err(io)?;
